@@ -62,3 +62,53 @@ contract(
     ensures=[tag("C20", "distance-is-absolute-position-difference",
                  "forall(a, 0, n, forall(b, 0, n, dist_matrix[a, b] == (b - a if b >= a else a - b)))")],
 )
+
+
+# ---- the flow matrix block of Instance.__init__ (C20): `flow_matrix = np.zeros(...)` ... the double loop that fills it.
+# `flows` holds the average ranks (scipy rankdata, external); the stored value int(round(multiplier * (max_val - f + 1) **
+# flow_power)) is float arithmetic and is abstracted as flowval(f) - one fixed function of the rank for this call - while
+# the element accesses and the control flow are the real ones.
+from pyvc.spec import REAL, Summary, spec  # noqa: E402
+
+spec("flowval(f, mult, mx, pw)", None, ret="int", ptypes=["real", "real", "int", "real"])
+contract(
+    "moptipyapps.order1d.instance:Instance.__init__#flows",
+    props="C20",
+    block=("assign flow_matrix #0", "for #4"),
+    params={"n": PYINT, "horizon": PYINT, "flows": A2(None, "real"), "multiplier": REAL, "flow_power": REAL},
+    i64=False, arith_props="not-posed",
+    assumptions=["the store of a Python int into the int64 matrix raises OverflowError if it does not fit (interpreted numpy "
+                 "code, not an njit kernel): no silent wrap-around, hence no range obligation for this store"],
+    requires=["n >= 1 and n <= 10**15 and horizon >= 1", "shape(flows, 0) == n and shape(flows, 1) == n"],
+    summaries={"assign flow_matrix[] #0": Summary(
+        {}, ["flow_matrix[i, j] == flowval(flows[i, j], multiplier, max_val, flow_power)"],
+        "int(round(multiplier * ((max_val - f + 1) ** flow_power))): one fixed function of the rank f (float pow / round)",
+        subscripts=True)},
+    loops={
+        "2": Loop(inv=[
+            tag("C20", "shape", "shape(flow_matrix, 0) == n and shape(flow_matrix, 1) == n and max_val == min(n - 1, horizon)"),
+            tag("C20", "rows-done", "forall(a, 0, i, forall(b, 0, n, flow_matrix[a, b] == "
+                "(0 if (a == b or flows[a, b] > horizon) else flowval(flows[a, b], multiplier, max_val, flow_power))))"),
+            tag("C20", "rest-zero", "forall(a, i, n, forall(b, 0, n, flow_matrix[a, b] == 0))"),
+        ]),
+        "2.0": Loop(inv=[
+            tag("C20", "shape", "shape(flow_matrix, 0) == n and shape(flow_matrix, 1) == n and max_val == min(n - 1, horizon)"
+                " and 0 <= i and i < n"),
+            tag("C20", "rows-done", "forall(a, 0, i, forall(b, 0, n, flow_matrix[a, b] == "
+                "(0 if (a == b or flows[a, b] > horizon) else flowval(flows[a, b], multiplier, max_val, flow_power))))"),
+            tag("C20", "row-prefix", "forall(b, 0, j, flow_matrix[i, b] == "
+                "(0 if (i == b or flows[i, b] > horizon) else flowval(flows[i, b], multiplier, max_val, flow_power)))"),
+            tag("C20", "rest-zero", "forall(b, j, n, flow_matrix[i, b] == 0) and forall(a, i + 1, n, forall(b, 0, n, flow_matrix[a, b] == 0))"),
+        ]),
+    },
+    ensures=[
+        tag("C20", "zero-on-the-diagonal", "forall(a, 0, n, flow_matrix[a, a] == 0)"),
+        tag("C20", "zero-beyond-the-horizon", "forall(a, 0, n, forall(b, 0, n, implies(flows[a, b] > horizon, flow_matrix[a, b] == 0)))"),
+        tag("C20", "equal-ranks-get-equal-flows",
+            "forall(a, 0, n, forall(b, 0, n, forall(c, 0, n, implies(a != b and a != c and flows[a, b] <= horizon and "
+            "flows[a, b] == flows[a, c], flow_matrix[a, b] == flow_matrix[a, c]))))"),
+        tag("C20", "flow-is-a-function-of-the-rank",
+            "forall(a, 0, n, forall(b, 0, n, implies(a != b and flows[a, b] <= horizon, "
+            "flow_matrix[a, b] == flowval(flows[a, b], multiplier, min(n - 1, horizon), flow_power))))"),
+    ],
+)
